@@ -139,6 +139,16 @@ def check_task(bag, rng, spec_vars, n_pos):
         except Exception as ex:
             bad("empty-solution", f"empty/initial_solution raised {type(ex).__name__}: {ex}")
         x = rand_position(rng, flat)
+        if t % 2 == 1:      # every coordinate inside its bounds but not yet corrected (fractional indexes, random keys)
+            x = []
+            for v in flat:
+                if v[0] == "c":
+                    x.append(v[1] + (v[2] - v[1]) * rng.random())
+                elif v[0] == "d":
+                    n = len(v[1])
+                    x.append(rng.choice([rng.uniform(0, n - 1), float(rng.randrange(n)), n - 1 - 1e-9 if n > 1 else 0.0, 0.5 if n > 1 else 0.0]))
+                else:
+                    x.append([rng.uniform(0, v[1] - 1) for _ in range(v[1])])
         for arg, how in ((x, "list"), (np.array(x, dtype=float) if not any(v[0] == "p" for v in flat) else None, "ndarray")):
             if arg is None:
                 continue
